@@ -400,19 +400,34 @@ func runCaseCancel(roots []*fnode, gmp int, batchSpins [nBatch]int, cancelKind, 
 	var sb strings.Builder
 	writeQuery(&sb, roots)
 	query := sb.String()
+	return runPrepared(b, query, gmp, batchSpins, cancelKind, cancelN,
+		func(syncResp string) (string, bool) { return altReference(roots, b, query, syncResp) }, nil, "")
+}
 
+// runPrepared: items and query are given; setup prepares every run object (reference run included).
+func runPrepared(b *builder, query string, gmp int, batchSpins [nBatch]int, cancelKind, cancelN int,
+	alt func(string) (string, bool), setup func(*run), tag string) sexp.Node {
 	prev := setGMP(gmp)
 	defer setGMP(prev)
 
 	// the reference: the same query with every resolver synchronous
 	rs := newRun(b.items, b.conns)
 	rs.syncMode = true
+	if setup != nil {
+		setup(rs)
+	}
 	syncResp := serve(rs, query)
 
-	altResp, hasAlt := altReference(roots, b, query, syncResp)
+	altResp, hasAlt := "", false
+	if alt != nil {
+		altResp, hasAlt = alt(syncResp)
+	}
 
 	pre := gset()
 	r := newRun(b.items, b.conns)
+	if setup != nil {
+		setup(r)
+	}
 	r.batchSpins = batchSpins
 	r.cancelKind, r.cancelN = cancelKind, cancelN
 	ctx, cancel := context.WithCancel(context.WithValue(context.Background(), runKey, r))
@@ -460,6 +475,7 @@ func runCaseCancel(roots []*fnode, gmp int, batchSpins [nBatch]int, cancelKind, 
 		sexp.T("gmp", sexp.Int(gmp)),
 		sexp.T("cancelkind", sexp.Int(cancelKind)),
 		sexp.T("cancelled", sexp.Bool(r.cancelled)),
+		sexp.T("stream", sexp.Str(tag)),
 		sexp.T("query", sexp.Str(query)),
 		sexp.T("items", sexp.L(items...)),
 		sexp.T("trace", sexp.L(tr...)),
@@ -805,5 +821,7 @@ func main() {
 				return runCaseCancel(roots, gmp, bs, kind, r.Intn(3))
 			})
 		}
+		// 7. the connection matrix
+		matrixCases(h, &idx)
 	})
 }
